@@ -381,6 +381,12 @@ func (dr *dirRepo) BlobCreate(opts ...BlobOpt) (BlobCreator, string, error) {
 		}
 		_, err := os.Stat(filepath.Join(dr.path, blobsDir, conf.expect.Algorithm().String(), conf.expect.Encoded()))
 		if err == nil {
+			// the blob is being pushed again, it is as new as one that had to be uploaded: the grace period starts over
+			now := time.Now()
+			_ = os.Chtimes(filepath.Join(dr.path, blobsDir, conf.expect.Algorithm().String(), conf.expect.Encoded()), now, now)
+			dr.mu.Lock()
+			dr.timeBlob = now
+			dr.mu.Unlock()
 			return nil, "", types.ErrBlobExists
 		}
 	}
